@@ -19,7 +19,7 @@ REQUIRED_OBS = ["programs", "files", "import_edges", "cross_context_calls", "rai
 RULE = (
     "generated sets of 3-7 files (top-level scripts, scripts/, a single-file app, an app package with a sibling, modules, a module "
     "package with a sibling, and a Jupyter-style session context) that all define the same global names (NAME, X, L, R, get, bump, apply, "
-    "safe, boom, make, lam, class C) plus a name only they define; import edges of every form (import m, import m as a, from m import f as "
+    "safe, boom, make, lam, class C) plus a name only they define (calls incl. ones whose arguments cannot be bound, caught by the caller); import edges of every form (import m, import m as a, from m import f as "
     "g, from m import *, from . import sib, from .sib import f, from pkg import sib) placed before, between or after the own definitions; "
     "top-level statements and entry functions whose bodies are nested cross-file call chains up to depth 4 (higher-order apply/safe of any "
     "file around get/bump/lam/boom/methods/closures of any file), callbacks into the caller's file, calls that raise through foreign "
